@@ -369,6 +369,48 @@ Section CreateProofs.
     apply np_if; [exact IH|apply np_err].
   Qed.
 
+  (** what success says about the range statements: each one (on a signature credential) names the claim and
+      the signature statement of the commitment statement it refers to *)
+  Lemma range_builders_agree Orc bs ix : forall P, range_builders creds S0 Orc P bs ix = Ok tt ->
+    forall s, In s P -> c_kind s = KRange -> forall l, assoc (c_sig s) creds = Some (CredSig l) ->
+    exists cs, find (fun p => Nat.eqb (c_key p) (c_ref s)) (cpreds S0) = Some cs /\
+               c_claim s = c_claim cs /\ c_sig s = c_ref cs.
+  Proof.
+    induction P as [|s0 t IH]; intros H s Hin Hk l Hl; [destruct Hin|].
+    cbn [range_builders] in H. destruct Hin as [->|Hin].
+    - rewrite Hk in H. cbn [kind_eqb negb] in H. rewrite Hl in H.
+      destruct (assoc (c_ref s) ix) as [bi|]; [|discriminate].
+      destruct (idx bs bi) as [b| |]; cbn [rbind] in H; try discriminate.
+      destruct (negb (kind_eqb b KComm)); [discriminate|].
+      destruct (find _ (cpreds S0)) as [cs|]; [|discriminate].
+      destruct (Nat.eqb_spec (c_claim s) (c_claim cs)) as [E1|]; cbn [negb orb] in H; [|discriminate].
+      destruct (Nat.eqb_spec (c_sig s) (c_ref cs)) as [E2|]; cbn [negb] in H; [|discriminate].
+      exists cs. repeat split; assumption.
+    - destruct (negb (kind_eqb (c_kind s0) KRange)); [exact (IH H s Hin Hk l Hl)|].
+      destruct (assoc (c_sig s0) creds) as [[l0|]|]; [|exact (IH H s Hin Hk l Hl)|discriminate].
+      destruct (assoc (c_ref s0) ix) as [bi|]; [|discriminate].
+      destruct (idx bs bi) as [b| |]; cbn [rbind] in H; try discriminate.
+      destruct (negb (kind_eqb b KComm)); [discriminate|].
+      destruct (find _ (cpreds S0)) as [cs|]; [|discriminate].
+      destruct (negb (Nat.eqb (c_claim s0) (c_claim cs)) || negb (Nat.eqb (c_sig s0) (c_ref cs))); [discriminate|].
+      destruct (nth_error l0 (c_claim s0)) as [isnum|]; [|discriminate].
+      destruct (isnum && oc_pred Orc (c_key s0)); [|discriminate].
+      exact (IH H s Hin Hk l Hl).
+  Qed.
+
+  Theorem create_ok_ranges_agree Orc : create creds S0 Orc = Ok tt ->
+    forall s, In s (cpreds S0) -> c_kind s = KRange -> forall l, assoc (c_sig s) creds = Some (CredSig l) ->
+    exists cs, find (fun p => Nat.eqb (c_key p) (c_ref s)) (cpreds S0) = Some cs /\
+               c_claim s = c_claim cs /\ c_sig s = c_ref cs.
+  Proof.
+    unfold create. destruct (length creds <? length (csigs S0)); [discriminate|].
+    destruct (negb _); [discriminate|].
+    destruct (message_types creds S0) as [pm| |]; cbn [rbind]; try discriminate.
+    destruct (sig_builders creds Orc (csigs S0) pm) as [n| |]; cbn [rbind]; try discriminate.
+    destruct (pred_builders creds Orc (cpreds S0) pm (repeat KSig n) []) as [[bs ix]| |]; cbn [rbind fst snd]; try discriminate.
+    apply range_builders_agree.
+  Qed.
+
   Theorem create_no_panic Orc : create creds S0 Orc <> Panic.
   Proof.
     change (no_panic (create creds S0 Orc)). unfold create.
